@@ -347,7 +347,12 @@ func (f *File) seekWithoutLocking(offset int64, whence int) (int64, error) {
 
 				// Hand the error to whoever reads from the pipe
 				_ = writer.CloseWithError(err)
+
+				return
 			}
+
+			// Never leave the reader waiting for a stream that has ended without being closed (i.e. if the position holds no regular file)
+			_ = writer.Close()
 		}()
 
 		f.readOpReader = reader
@@ -536,7 +541,12 @@ func (f *File) Read(p []byte) (n int, err error) {
 
 				// Hand the error to whoever reads from the pipe
 				_ = writer.CloseWithError(err)
+
+				return
 			}
+
+			// Never leave the reader waiting for a stream that has ended without being closed (i.e. if the position holds no regular file)
+			_ = writer.Close()
 		}()
 
 		f.readOpReader = reader
